@@ -8,7 +8,7 @@ import NsyncVerif.Model.Deadline
 import NsyncVerif.Model.VCDriver
 import NsyncVerif.Model.MuQDriver
 import NsyncVerif.Model.CounterDriver
-import NsyncVerif.Model.CvDriver
+import NsyncVerif.Model.CvFixDriver
 import NsyncVerif.Model.NoteDriver
 /-
   `replay <layer>…` : reads a harness log (or a differential case file) on stdin and feeds every line
@@ -30,7 +30,7 @@ structure Layers where
   vc : VC.Driver.DState := VC.Driver.init
   muq : MuQ.Driver.DState := MuQ.Driver.init
   counter : Counter.Driver.DState := Counter.Driver.init
-  cv : Cv.Driver.DState := Cv.Driver.init
+  cv : CvFix.Driver.DState := CvFix.Driver.init
   note : Note.Driver.DState := Note.Driver.init
 
 /-- Nested API boundaries are logged as `ncall`/`nret` with structured names (`oncesync5.mu`,
@@ -73,13 +73,14 @@ def Layers.feed (l : Layers) (name line : String) : Layers × String :=
     if isConventionKind line || (line.splitOn " ").getD 1 "" == "malloc" || (line.splitOn " ").getD 1 "" == "free" then
       let (d, o) := Counter.Driver.step l.counter (adaptCounter (adaptNested line)); ({ l with counter := d }, o)
     else (l, "skip")
-  | "cv" => let (d, o) := Cv.Driver.step l.cv line; ({ l with cv := d }, o)
+  | "cv" => let (d, o) := CvFix.Driver.step l.cv line; ({ l with cv := d }, o)
   | "note" => let (d, o) := Note.Driver.step l.note line; ({ l with note := d }, o)
   | "vc" => let (d, o) := VC.Driver.step l.vc line; ({ l with vc := d }, o)
   | "deadline" => let (d, o) := Deadline.Driver.step l.deadline line; ({ l with deadline := d }, o)
   | "dll" => let (d, o) := Dll.Driver.step l.dll line; ({ l with dll := d }, o)
   | "once" =>
-    if isConventionKind line then
+    -- (a cancelled cv wait never occurs inside run_once; the Once parser does not know the result code)
+    if isConventionKind line && !(line.endsWith "ECANCELED") then
       let (d, o) := Once.Driver.step l.once (adaptNested line); ({ l with once := d }, o)
     else (l, "skip")
   | _ => (l, "bad-layer")
@@ -95,10 +96,6 @@ structure St where
   cov : List (String × Nat) := []
   cvF3 : Bool := false
   foreign : List (String × Nat × Nat) := []   -- (layer, tid) ↦ depth of nested calls on objects that are not the layer's
-
-/-- the Cv acceptor's ghost flag for defect F3: an nsync_wait_n record that a waker had already unlinked was
-    "removed" again by its owner's cv_dequeue, i.e. the wake-up was consumed but reported as not-ready -/
-def cvHasF3 (d : Cv.Driver.DState) : Bool := d.alts.all (fun al => al.cvs.any (fun p => p.2.f3)) && !d.alts.isEmpty
 
 def mergeCov (a b : List (String × Nat)) : List (String × Nat) :=
   b.foldl (fun acc (k, n) =>
@@ -147,6 +144,7 @@ partial def loop (h : IO.FS.Stream) (names : List String) (st : St) : IO St := d
         let (ftbl, hide) :=
           if name == "note" then hideForeign st.foreign name (fun o => o.startsWith "note") line
           else if name == "counter" then hideForeign st.foreign name (fun o => o.startsWith "ctr") line
+          else if name == "once" then hideForeign st.foreign name (fun o => o.startsWith "oncesync") line
           else (st.foreign, false)
         st := { st with foreign := ftbl }
         let (l, out) := if hide then (st.layers, "skip") else st.layers.feed name line
@@ -156,9 +154,6 @@ partial def loop (h : IO.FS.Stream) (names : List String) (st : St) : IO St := d
           IO.println s!"REJECT exec={st.execNo} line={st.lineNo} layer={name} {out} | {line}"
           st := { st with dead := name :: st.dead, rejects := st.rejects + 1 }
           if st.execNo == 0 then st := { st with dead := [] }   -- differential files: keep going
-    if names.contains "cv" && !st.cvF3 && cvHasF3 st.layers.cv then
-      IO.println s!"ORACLE exec={st.execNo} line={st.lineNo} layer=cv waitn-swallowed-wakeup: an nsync_wait_n record already unlinked by a waker was removed again by its owner's cv_dequeue (the consumed wake-up is reported as not ready) | {line}"
-      st := { st with cvF3 := true }
     loop h names st
 
 def main (args : List String) : IO UInt32 := do
